@@ -108,6 +108,9 @@ def gen_universe(rng, n=None, heavy=0.08):
         if rng.random() < 0.25:
             # the secret parts live on a smartcard: GnuPG exports stubs (S2K 101, mode 2, card serial)
             k['foreign_stub'] = True
+        elif rng.random() < 0.2:
+            # the shape some generators still write: an RSA Sign-Only primary (id 3) with an RSA Encrypt-Only subkey (id 2)
+            k['foreign_rsa_legacy'] = True
         if rng.random() < 0.6:
             k['foreign_sub'] = {'curve': rng.choice(['cv25519', 'cv25519', 'ecdh_p256', 'ecdh_p384', 'ecdh_p521', 'elg2048']),
                                 'kdf': rng.choice([[8, 7], [10, 9], [9, 8], [10, 7], [8, 9], [9, 9]])}
@@ -212,7 +215,7 @@ class KeyHistory(object):
                 except UnicodeDecodeError:
                     ctx.probe('foreign_non_utf8_uid')
                 for fc in tk.subkeys:
-                    ms = MSub(fc.key.fingerprint, c['foreign_sub']['curve'])
+                    ms = MSub(fc.key.fingerprint, (c.get('foreign_sub') or {'curve': 'rsa2048'})['curve'])
                     ms.sigs.append(self._rec(encode_packet(2, fc.sigs[0]), 'bind', name, usage='E'))
                     mk.subs.append(ms)
                     ctx.probe('foreign_ecdh_subkey')
@@ -244,6 +247,15 @@ class KeyHistory(object):
         body, alg, sec = rkeys.gen_key('ed25519', created, seams.derive(rs, 'foreignkey:' + name, 'primary', 32))
         subs = []
         fs = c.get('foreign_sub')
+        if c.get('foreign_rsa_legacy'):
+            from .props.c05 import make_ref_key
+            body, alg, sec = make_ref_key('rsa2048', created, b'', rs, label='foreignkey:' + name + ':p')
+            body, alg = body[:5] + bytes([rkeys.RSA_S]) + body[6:], rkeys.RSA_S
+            sb, salg, ssec = make_ref_key('rsa2048', created, b'', rs, label='foreignkey:' + name + ':e')
+            sb, salg = sb[:5] + bytes([rkeys.RSA_E]) + sb[6:], rkeys.RSA_E
+            subs.append((sb, salg, ssec, 0x0C))
+            fs = None
+            self.ctx.probe('foreign_legacy_rsa_ids')
         if fs:
             if fs['curve'].startswith('elg'):
                 # the classic GnuPG shape: an ElGamal encryption subkey
